@@ -78,6 +78,9 @@ func genC11(t *rapid.T) C11Case {
 	return c
 }
 
+// mkTwin builds the value of s a second time, without its history.
+func mkTwin(s h.Spec) *decimal.Decimal { s.Hist = ""; return s.Build() }
+
 func checkC11(c C11Case, o *h.Obs) *h.Fail {
 	x := c.X.Build()
 	xv := c.X.Val()
@@ -95,6 +98,18 @@ func checkC11(c C11Case, o *h.Obs) *h.Fail {
 			return h.Failf("marshal", "MarshalText: %v", err)
 		}
 		out = string(b)
+		// the bytes handed out are the caller's: writing into them and appending to them (append(b, '\n') is what a
+		// caller writing lines does) must not show in any later result
+		for i := range b {
+			b[i] = '#'
+		}
+		b = append(b, "\n#"...)
+		if b2, err := x.MarshalText(); err != nil || string(b2) != out {
+			return h.Failf("marshal-shared", "MarshalText of %v after the caller overwrote and appended to the previous result: %q (err %v), first result %q", xv, h.FirstN(string(b2), 100), err, h.FirstN(out, 100))
+		}
+		if b3, err := mkTwin(c.X).MarshalText(); err != nil || string(b3) != out {
+			return h.Failf("marshal-shared", "MarshalText of an equal value after the caller overwrote the previous result: %q, want %q", h.FirstN(string(b3), 100), h.FirstN(out, 100))
+		}
 	case "json":
 		b, err := json.Marshal(x)
 		if err != nil {
